@@ -73,6 +73,7 @@ type World struct {
 	badPushErr string            // what that write returned
 	ran        map[byte][]string // per request tag: the methods that were invoked for it
 	streamHold bool              // the Push handler waits (after each received message) until this is cleared
+	plainSeen  []string          // what Svc.Plain was invoked with (length and first bytes), in order
 }
 
 func newWorld() *World {
@@ -102,6 +103,7 @@ func (s *Svc) Eco2(req *[]byte, res *[]byte) error {
 // Plain ignores the flag byte (used where the payload itself is corrupted on purpose).
 func (s *Svc) Plain(req *[]byte, res *[]byte) error {
 	in := *req
+	s.w.plainSeen = append(s.w.plainSeen, fmt.Sprintf("%d:%x", len(in), clipBytes(in, 16)))
 	if len(in) > 0 {
 		s.w.execs[in[0]]++
 	}
@@ -431,4 +433,11 @@ func errStr(err error) string {
 		return "nil"
 	}
 	return err.Error()
+}
+
+func clipBytes(b []byte, n int) []byte {
+	if len(b) > n {
+		return b[:n]
+	}
+	return b
 }
